@@ -21,7 +21,11 @@ EXPLANATION = (
     "tokens: every operator token is stripped before float(), d->e, the no-bound spellings keep the default -1, tmin/tmax feed temp_min/"
     "temp_max respectively; UCLCHEM FREEZE forces the window (0, 30) -- all parsers are read in their folded form (pymodel.folded: helpers put back, class-level "
     "tables in place, table-driven setattr dispatch resolved); R5 the default duplicate search compares the reactions themselves (window included); "
-    "R6 every reaction of the list contributes its terms to the equations unconditionally (shared with C01.R2/R3).")
+    "R6 every reaction of the list contributes its terms to the equations unconditionally (shared with C01.R2/R3); "
+    "R7 the window survives the package's own text formats: Reaction.__format__ writes temp_min / temp_max of every format a reaction class reads back "
+    "with absolute precision (fixed point / integer / repr), never with fewer than 17 significant digits in exponent or general notation "
+    "(export -> render would move the bound of a piecewise fit).  R4 also: a regular expression that picks the number out of a KROME limit "
+    "(found by role: applied to a piece of a field of the line, result converted by float()) admits e/E/d/D and both exponent signs unless it is anchored.")
 ASSUMPTIONS = [
     "evaluation at boundary temperatures follows from the C operators >= and < once the guard text is as stated",
     "whether a database's `.LE.` should have been inclusive is not decided",
